@@ -23,6 +23,7 @@ type SelCase struct {
 	ptr  uintptr
 	cap  int
 	Val  any
+	real any // the real channel (used only outside of executions)
 }
 
 // SelResult is returned by Select.
@@ -54,12 +55,12 @@ func (e *Exec) chanOf(ptr uintptr, capacity int) *chanState {
 
 // RecvCase builds a receive case.
 func RecvCase[T any](ch <-chan T) SelCase {
-	return SelCase{ptr: chanPtr(ch), cap: cap(ch)}
+	return SelCase{ptr: chanPtr(ch), cap: cap(ch), real: ch}
 }
 
 // SendCase builds a send case.
 func SendCase[T any](ch chan<- T, v T) SelCase {
-	return SelCase{Send: true, ptr: chanPtrS(ch), cap: cap(ch), Val: v}
+	return SelCase{Send: true, ptr: chanPtrS(ch), cap: cap(ch), Val: v, real: ch}
 }
 
 // Val converts the value received by Select back to the element type of ch.
@@ -74,8 +75,12 @@ func Val[T any](ch <-chan T, r SelResult) T {
 // Send is `ch <- v`.
 func Send[T any](ch chan<- T, v T) {
 	if E == nil {
-		ch <- v
-		return
+		select {
+		case ch <- v:
+			return
+		default:
+			panic(ErrWouldBlock{"chan.send"})
+		}
 	}
 	doSelect(false, []SelCase{{Send: true, ptr: chanPtrS(ch), cap: cap(ch), Val: v}})
 }
@@ -83,7 +88,12 @@ func Send[T any](ch chan<- T, v T) {
 // Recv is `<-ch`.
 func Recv[T any](ch <-chan T) T {
 	if E == nil {
-		return <-ch
+		select {
+		case v := <-ch:
+			return v
+		default:
+			panic(ErrWouldBlock{"chan.recv"})
+		}
 	}
 	r := doSelect(false, []SelCase{{ptr: chanPtr(ch), cap: cap(ch)}})
 	return Val(ch, r)
@@ -92,8 +102,12 @@ func Recv[T any](ch <-chan T) T {
 // Recv2 is `v, ok := <-ch`.
 func Recv2[T any](ch <-chan T) (T, bool) {
 	if E == nil {
-		v, ok := <-ch
-		return v, ok
+		select {
+		case v, ok := <-ch:
+			return v, ok
+		default:
+			panic(ErrWouldBlock{"chan.recv"})
+		}
 	}
 	r := doSelect(false, []SelCase{{ptr: chanPtr(ch), cap: cap(ch)}})
 	return Val(ch, r), r.OK
@@ -147,8 +161,44 @@ func Select(hasDefault bool, cases ...SelCase) SelResult {
 	return doSelect(hasDefault, cases)
 }
 
+// nativeSelect runs the select on the real channels (outside of executions all
+// channel operations act on the real channels, so this is consistent).
 func nativeSelect(hasDefault bool, cases []SelCase) SelResult {
-	panic("vrt.Select outside of an execution is only available in vnative builds")
+	rc := make([]reflect.SelectCase, 0, len(cases)+1)
+	for _, c := range cases {
+		if c.Send {
+			rc = append(rc, reflect.SelectCase{Dir: reflect.SelectSend, Chan: reflect.ValueOf(c.real), Send: reflect.ValueOf(c.Val)})
+		} else {
+			rc = append(rc, reflect.SelectCase{Dir: reflect.SelectRecv, Chan: reflect.ValueOf(c.real)})
+		}
+	}
+	if hasDefault {
+		rc = append(rc, reflect.SelectCase{Dir: reflect.SelectDefault})
+	} else {
+		// refuse to hang the process: nothing ready means a sequential deadlock
+		probe := append(append([]reflect.SelectCase{}, rc...), reflect.SelectCase{Dir: reflect.SelectDefault})
+		i, v, ok := reflect.Select(probe)
+		if i == len(rc) {
+			panic(ErrWouldBlock{"select"})
+		}
+		return nativeResult(cases, i, v, ok)
+	}
+	i, v, ok := reflect.Select(rc)
+	if hasDefault && i == len(cases) {
+		return SelResult{I: -1}
+	}
+	return nativeResult(cases, i, v, ok)
+}
+
+func nativeResult(cases []SelCase, i int, v reflect.Value, ok bool) SelResult {
+	if cases[i].Send {
+		return SelResult{I: i}
+	}
+	var val any
+	if ok && v.IsValid() {
+		val = v.Interface()
+	}
+	return SelResult{I: i, V: val, OK: ok}
 }
 
 // partner finds a thread (other than self) that is registered as waiting with an
